@@ -124,4 +124,29 @@ theorem every_edge_guard_needed :
       (col (canon.edges.getD i []) 2 == "F") = true → leaks (unguardEdge canon i) = true := by
   decide +kernel
 
+/-! ### `call:` steps
+
+  A `call:` step's command line is assembled by `parseFuncCall` (function template + argument values). On the
+  canonical table `parseFuncCall` has no effect site, and it IS on the call path of the builder steps that read
+  `Steps`, `HandlerOn` and `Functions` — so `C19_full` covers function calls: were an exec site to appear there
+  (seeded mutant C19-4: `util.SplitCommandWithParse` in parseFuncCall, listed as an exec callee by the extractor),
+  validation and display would reach it through all three fields, listing would not (it builds no steps). -/
+
+def addSite (T : Tables) (row : List String) : Tables := { T with sites := T.sites ++ [row] }
+
+def callSite : List String := ["parseFuncCall", "util.SplitCommandWithParse", "0", "exec", "-", "-"]
+
+theorem parseFuncCall_on_call_path :
+    ∀ e ∈ ["LoadYAML", "LoadWithoutEval"], ∀ f ∈ ["Steps", "HandlerOn", "Functions"],
+      (match optsOf canon e with
+       | some o => (reachFns canon o (builders canon o f)).contains "parseFuncCall"
+       | none => false) = true := by
+  decide +kernel
+
+theorem call_site_would_leak :
+    (∀ e ∈ ["LoadYAML", "LoadWithoutEval"], ∀ f ∈ ["Steps", "HandlerOn", "Functions"],
+      (⟨"parseFuncCall", "util.SplitCommandWithParse", "0"⟩ : Effect) ∈ reach (addSite canon callSite) e f) ∧
+    (∀ f ∈ mentioned canon, reach (addSite canon callSite) "LoadMetadata" f = []) := by
+  decide +kernel
+
 end BdModel.Load.Effects
